@@ -590,7 +590,63 @@ fn reentrant_join_case(threads: bool, src: u8, join_at: usize, joiners: usize) -
   .and_then(|r| r)
 }
 
+/// publish() without connect(): forks are subscribed, the connectable value itself is subscribed
+/// (it is an Observable too, and subscribing it consumes it, so connect() can never be called),
+/// the hot source emits: the source must not have been subscribed at all.
+fn unconnected_publish_case(cold: bool, self_first: bool) -> Result<(usize, usize, usize), String> {
+  catch(|| {
+    let log = Log::new();
+    let mut hot = Subject::<'static, V, E>::default();
+    let (la, lb) = (log.clone(), log.clone());
+    let src: rxrust::ops::box_it::BoxOp<'static, V, E> = if cold {
+      defer(move || {
+        lb.mark(SUBCNT, "source_subscribed", 0);
+        create(|mut s: Subscriber<_>| {
+          s.next(V::I(1));
+          s.next(V::I(2));
+        })
+      })
+      .tap(move |v: &V| { la.mark(TAP, "tap", v.int()); })
+      .box_it()
+    } else {
+      hot.clone().tap(move |v: &V| { la.mark(TAP, "tap", v.int()); }).box_it()
+    };
+    let p = src.publish::<Subject<'static, V, E>>();
+    let f = p.fork();
+    if self_first {
+      std::mem::forget(p.actual_subscribe(Probe::new(2, &log)));
+      std::mem::forget(f.clone().actual_subscribe(Probe::new(1, &log)));
+    } else {
+      std::mem::forget(f.clone().actual_subscribe(Probe::new(1, &log)));
+      std::mem::forget(p.actual_subscribe(Probe::new(2, &log)));
+    }
+    hot.next(V::I(5));
+    hot.next(V::I(6));
+    (log.marks(SUBCNT, "source_subscribed").len(), log.marks(TAP, "tap").len(), log.notes(1).len() + log.notes(2).len())
+  })
+}
+
 pub fn run(cfg: &Cfg, rep: &mut Report) {
+  if cfg.shard == 0 && cfg.only_case.as_deref().map_or(true, |c| c.starts_with("unconnected:")) {
+    for cold in [false, true] {
+      for self_first in [false, true] {
+        let id = format!("unconnected:{}:{}", cold, self_first);
+        rep.evaluations += 1;
+        rep.events += 2;
+        rep.count("publish_cases_never_connected", 1);
+        match unconnected_publish_case(cold, self_first) {
+          Err(p) => rep.violation("panic", "publish[never connected]", &id, json!({"panic": p})),
+          Ok((subs, taps, delivered)) => {
+            if subs + taps + delivered > 0 {
+              rep.violation("source_subscribed_before_connect", "publish[never connected]", &id, json!({"why": "connect() was never called (forks and the connectable itself were subscribed)", "source_subscriptions": subs, "source_items_seen_upstream": taps, "notifications_delivered": delivered}));
+            } else {
+              rep.nontrivial.insert(hash64(&id));
+            }
+          }
+        }
+      }
+    }
+  }
   if cfg.shard == 0 && cfg.only_case.as_deref().map_or(true, |c| c.starts_with("rejoin:")) {
     for threads in [false, true] {
       for src in 0..3u8 {
